@@ -175,8 +175,27 @@ def replay(ctx, failing):
         from . import _runloop_common as RL
         return RL.replay_scenario(failing)
     if 'A' in inp:
-        print('doctest A:\n%s\ndoctest B:\n%s\nexpected %r' % (inp['A'], inp['B'], failing.get('expected')))
-        return True
+        # doctest A runs doctest B from inside its last statement: each must log exactly its own output (re-evaluated here)
+        import io
+        import contextlib
+        from ..gen import doctests as gd
+        from ..corr.runloop import NS
+        exa, exb = E.parse_example(inp['A']), E.parse_example(inp['B'])
+        resb = {}
+
+        def other():
+            resb['run'] = E.run_example(exb)
+        ns, _T = gd.make_namespace(NS())
+        ns['__file__'] = '<ref>'
+        ns['other'] = other
+        exa.global_namespace = ns
+        buf = io.StringIO()
+        with contextlib.redirect_stdout(buf):
+            exa.run(on_error='return', verbose=0)
+        now = {'A': ''.join(v or '' for v in exa.logged_stdout.values()),
+               'B': ''.join(v or '' for v in resb.get('run', {}).get('logged', {}).values()), 'leaked': buf.getvalue()}
+        print('doctest A:\n%s\ndoctest B:\n%s\nexpected %r\nobserved %r' % (inp['A'], inp['B'], failing.get('expected'), now))
+        return now != failing.get('expected')
     text = inp['text']
     prog = P.Program.from_desc(inp['program'])
     t2, line_of, stmt_first = prog.render()
